@@ -375,3 +375,132 @@ def reach_wide_first_channel(rows: int, w: int, has_type: bool, u_max: bool) -> 
     post: _ != 0
     """
     return wide_first_channel_check(rows, w, has_type, u_max)
+
+
+# --------------------------------------------------------------------- float index (integer-valued or NaN): C13 / C17
+# A float64 index whose finite values are integers of magnitude < 2**50: every difference is exact in binary64, so the
+# stub's integer arithmetic IS numpy's float arithmetic; each row may instead be NaN (a missing sample), with numpy's
+# NaN semantics (comparisons False, arithmetic / median / min / max propagate, unique keeps one NaN).  What is asserted:
+# a SPACING is announced only for rows that really are uniformly spaced - never NaN, never for an index with a missing
+# sample - and in the high-compatibility mode such an index is refused.
+
+FBOUND = 2 ** 50
+
+
+def float_index_check(n, a, b, c, d, na, nb, nc, nd, mode, tol):
+    npv.TOLERANCE_ORACLE[0] = tol
+    npv.EXACT_TOL[0] = True
+    try:
+        ints = [a, b, c, d][:n]
+        flags = [na, nb, nc, nd][:n]
+        vals = []
+        anynan = False
+        for i in range(n):
+            if flags[i]:
+                vals.append(npv.NAN)
+                anynan = True
+            else:
+                vals.append(ints[i])
+        arr = npv.VArr(vals, npv.float64)
+        if not anynan:
+            # finite data: the same expectations as for integer indices
+            r = spacing_check_arr(arr, ints, n)
+            if r:
+                return r
+        else:
+            (spacing, direction) = FrameItem._compute_spacing_and_direction(arr)
+            if n >= 2 and spacing is not None:
+                return 20                   # a SPACING (NaN, or the median of the remaining steps) for an index with a hole
+            if n == 1 and (spacing is not None or direction is not None):
+                return 21
+        if not anynan or n < 2:
+            return 0                        # the set-up of finite indices is ob_params' subject
+        # through the frame set-up: in the mode an index with a hole is refused
+        with untraced():
+            reset_global_state()
+            ch = ChannelItem('IDX', ChannelSet(), origin_reference=1)
+            fr = FrameItem('FR', FrameSet(), channels=(ch,), origin_reference=1)
+            fr.index_type.value = 'BOREHOLE-DEPTH'
+        global_config.high_compat_mode = mode
+        raised = False
+        try:
+            try:
+                fr._setup_frame_params_from_data(FakeData(arr))
+            except RuntimeError:
+                raised = True
+        finally:
+            global_config.high_compat_mode = False
+        if anynan and n >= 2:
+            if mode and not raised:
+                return 22                   # written in the mode although the index has a hole
+            if not raised and fr.spacing.value is not None:
+                return 23
+        return 0
+    finally:
+        npv.EXACT_TOL[0] = False
+
+
+def spacing_check_arr(arr, vals, n):
+    (spacing, direction) = FrameItem._compute_spacing_and_direction(arr)
+    if n == 1:
+        return 0 if (spacing is None and direction is None) else 1
+    diffs = [vals[i + 1] - vals[i] for i in range(n - 1)]
+    uniform = True
+    inc = True
+    dec = True
+    allzero = True
+    for x in diffs:
+        if x != diffs[0]:
+            uniform = False
+        if x < 0:
+            inc = False
+        if x > 0:
+            dec = False
+        if x != 0:
+            allzero = False
+    if uniform and (spacing is None or spacing != diffs[0]):
+        return 2
+    want = None
+    if not allzero:
+        if inc:
+            want = True
+        elif dec:
+            want = False
+    if direction is not want:
+        return 3
+    if not uniform and spacing is not None:
+        # announced for non-uniform steps: only legitimate when every step is within the documented tolerance
+        s = sorted(diffs)
+        k = len(s)
+        if k % 2:
+            num, den = s[k // 2], 1
+        else:
+            num, den = s[k // 2 - 1] + s[k // 2], 2
+        if num == 0:
+            return 4
+        anum = num if num >= 0 else -num
+        for x in diffs:
+            g = num - x * den
+            if g < 0:
+                g = -g
+            if 1000 * g > 32 * anum:
+                return 5
+    return 0
+
+
+def ob_float_index(n: int, a: int, b: int, c: int, d: int, na: bool, nb: bool, nc: bool, nd: bool, mode: bool, tol: bool) -> int:
+    """
+    pre: 1 <= n <= 4 and n % SHARD_N == SHARD_I % 4
+    pre: -FBOUND <= a <= FBOUND and -FBOUND <= b <= FBOUND and -FBOUND <= c <= FBOUND and -FBOUND <= d <= FBOUND
+    post: _ == 0
+    """
+    return float_index_check(n, a, b, c, d, na, nb, nc, nd, mode, tol)
+
+
+def reach_float_index(n: int, a: int, b: int, c: int, d: int, na: bool, nb: bool, nc: bool, nd: bool, mode: bool, tol: bool) -> int:
+    """
+    pre: 1 <= n <= 4
+    pre: -FBOUND <= a <= FBOUND and -FBOUND <= b <= FBOUND and -FBOUND <= c <= FBOUND and -FBOUND <= d <= FBOUND
+    post: _ != 0
+    """
+    return float_index_check(n, a, b, c, d, na, nb, nc, nd, mode, tol)
